@@ -12,6 +12,7 @@
 #include <utility>
 #include <vector>
 
+#include <map>
 namespace skv {
 
 typedef std::vector<uint8_t> Bytes;
@@ -146,5 +147,8 @@ static inline bool write_file(const std::string &path, const std::string &s) {
     fclose(f);
     return true;
 }
+
+// measured API surface (filled by the executor, reported with the statistics)
+inline std::map<std::string, uint64_t> &api_call_counts() { static thread_local std::map<std::string, uint64_t> m; return m; }   // per thread: executors run concurrently in C18; the main thread's counts are reported
 
 }  // namespace skv
